@@ -17,19 +17,26 @@ import (
 	"verifharness/lib"
 )
 
-// Case: one record, optionally with projectors/basis generated from (K, MStyle, MSeed) for the
-// record's length (so that the shrinker may drop samples).
-type Case struct {
-	ID     int64  `json:"id"`
+// Step: one record, optionally with projectors/basis generated from (K, MStyle, MSeed) for the record's
+// length. Case: a short HISTORY of steps run one after the other on ONE DataStreamProcessor (the model is a
+// function of the record alone, so comparing every step with it demands that the results do not depend on
+// what the processor analysed or how it was configured before).
+type Step struct {
 	Signed bool   `json:"signed"`
 	Pre    int    `json:"pre"`
 	Data   []int  `json:"data"` // raw 16-bit words
 	K      int    `json:"k"`    // number of basis functions, 0 = no projectors
 	MStyle int    `json:"mstyle"`
 	MSeed  uint64 `json:"mseed"`
-	Bad    int    `json:"bad"`   // 0 compatible shapes; 1 projector columns n+1; 2 basis rows n+1; 3 basis columns k+1
-	Kind   string `json:"kind"`  // generator label (tag only)
-	Batch  int    `json:"batch"` // 0: the record alone; 1: [decoy, record]; 2: [record, decoy]; 3: [decoy, record, decoy] in ONE AnalyzeData call
+	Bad    int    `json:"bad"`    // 0 compatible shapes; 1 projector columns n+1; 2 basis rows n+1; 3 basis columns k+1
+	Kind   string `json:"kind"`   // generator label (tag only)
+	Batch  int    `json:"batch"`  // 0: the record alone; 1: [decoy, record]; 2: [record, decoy]; 3: [decoy, record, decoy] in ONE AnalyzeData call
+	Reconf bool   `json:"reconf"` // call ConfigurePulseLengths(len, pre) before the step (when the pair is legal)
+}
+
+type Case struct {
+	ID    int64  `json:"id"`
+	Steps []Step `json:"steps"`
 }
 
 // ---------- float rendering ----------
@@ -94,7 +101,7 @@ func randEntry(r *lib.Rng, emin, emax int) float64 {
 }
 
 // matrices returns projectors (k x pc, as rows) and basis (br x bc, as rows).
-func matrices(c Case, n int) (P, B [][]float64) {
+func matrices(c Step, n int) (P, B [][]float64) {
 	k := c.K
 	pc, br, bc := n, n, k
 	switch c.Bad {
@@ -230,45 +237,108 @@ type implOut struct {
 	Resid    string    `json:"resid,omitempty"`
 }
 
+// benchState: one processor and what the harness knows about its configuration.
+type benchState struct {
+	b      *dastard.VerifBench
+	dsp    *dastard.DataStreamProcessor
+	curN   int // dsp.NSamples
+	curP   int // dsp.NPresamples
+	loaded bool
+}
+
+func (st *benchState) reconfigure(nsamp, npre int) {
+	if err := st.b.Source().ConfigurePulseLengths(nsamp, npre); err != nil {
+		panic(err)
+	}
+	if nsamp != st.curN || npre != st.curP {
+		st.loaded = false // ConfigurePulseLengths drops projectors when the lengths change
+	}
+	st.curN, st.curP = nsamp, npre
+}
+
+// dropProjectors makes sure no projectors are loaded (through the production path: a change of lengths).
+func (st *benchState) dropProjectors() {
+	if st.loaded {
+		st.reconfigure(st.curN+1, st.curP)
+	}
+}
+
+func legalLengths(nsamp, npre int) bool { return npre >= 3 && nsamp >= npre+1 }
+
 func runCase(c Case) lib.Result {
-	res := lib.Result{ID: c.ID, Hash: lib.Hash(struct {
-		S    bool
-		P    int
-		D    []int
-		K, M int
-		Sd   uint64
-		B    int
-		Bt   int
-	}{c.Signed, c.Pre, c.Data, c.K, c.MStyle, c.MSeed, c.Bad, c.Batch})}
+	res := lib.Result{ID: c.ID, Hash: lib.Hash(c.Steps)}
+	b, err := dastard.VerifNewBench(1, 3, 4, 10000, nil)
+	if err != nil {
+		panic(err)
+	}
+	defer b.Close()
+	st := &benchState{b: b, dsp: b.VerifDsp(0), curN: 4, curP: 3}
+	if st.dsp.VerifDecimating() {
+		panic("decimation is on")
+	}
+	tags := map[string]bool{}
+	var terms []string
+	var outs []implOut
+	maxPre := -1
+	for _, s := range c.Steps {
+		term, out, nt := runStep(st, s, tags)
+		terms = append(terms, term)
+		outs = append(outs, out)
+		if nt {
+			res.NonTrivial = true
+		}
+		if s.Pre < maxPre {
+			tags["pre-shorter-than-before"] = true
+		}
+		if s.Pre > maxPre {
+			maxPre = s.Pre
+		}
+	}
+	switch {
+	case len(c.Steps) >= 4:
+		tags["history>=4"] = true
+	case len(c.Steps) >= 2:
+		tags["history2-3"] = true
+	default:
+		tags["history1"] = true
+	}
+	res.Term = "[" + strings.Join(terms, ";\n ") + "]"
+	res.Impl = outs
+	res.Tags = sortedTags(tags)
+	return res
+}
+
+// runStep analyses one record on the shared processor; returns the Coq term of type `case`.
+func runStep(st *benchState, c Step, tags map[string]bool) (string, implOut, bool) {
 	n := len(c.Data)
 	data := make([]uint16, n)
 	for i, v := range c.Data {
 		data[i] = uint16(v)
 	}
-	tags := map[string]bool{}
 	if c.Kind != "" {
 		tags["kind:"+c.Kind] = true
 	}
-	nsamp := n
-	if nsamp < 4 {
-		nsamp = 4
-	}
-	b, err := dastard.VerifNewBench(1, 3, nsamp, 10000, nil)
-	if err != nil {
-		panic(err)
-	}
-	defer b.Close()
-	dsp := b.VerifDsp(0)
-	if dsp.VerifDecimating() {
-		panic("decimation is on")
-	}
+	b, dsp := st.b, st.dsp
 	out := implOut{}
 	var P, B [][]float64
-	withProj := c.K > 0 && n >= 1
+	withProj := c.K > 0 && n >= 4
+	st.dropProjectors()
+	if c.Reconf && legalLengths(n, c.Pre) {
+		st.reconfigure(n, c.Pre)
+		tags["reconfigured"] = true
+	}
 	if withProj {
+		if st.curN != n {
+			p := c.Pre
+			if !legalLengths(n, p) {
+				p = 3
+			}
+			st.reconfigure(n, p)
+		}
 		P, B = matrices(c, n)
 		err := b.Source().ConfigureProjectorsBases(0, dense(P), dense(B), "verif")
 		out.Accepted = err == nil
+		st.loaded = out.Accepted
 		tags[fmt.Sprintf("proj-k%d", c.K)] = true
 		tags[fmt.Sprintf("proj-style%d", c.MStyle)] = true
 		if c.Bad != 0 {
@@ -277,6 +347,9 @@ func runCase(c Case) lib.Result {
 		if !out.Accepted {
 			tags["proj-rejected"] = true
 		}
+	}
+	if c.Pre != st.curP {
+		tags["pre!=configured"] = true
 	}
 	dataTerm := lib.ZListInt(c.Data)
 	var rec dastard.VerifRecord
@@ -307,11 +380,9 @@ func runCase(c Case) lib.Result {
 	}()
 	if out.Panic {
 		tags["panic"] = true
-		res.Term = fmt.Sprintf("KPanic %s %s %s", boolStr(c.Signed), lib.Z(int64(c.Pre)), dataTerm)
-		res.Impl = out
-		res.Tags = sortedTags(tags)
-		return res
+		return fmt.Sprintf("KPanic %s %s %s", boolStr(c.Signed), lib.Z(int64(c.Pre)), dataTerm), out, false
 	}
+	var term string
 	vals := []float64{rec.PretrigMean, rec.PretrigDelta, rec.PulseAverage, rec.PulseRMS, rec.PeakValue}
 	sc := make([]string, len(vals))
 	for i, v := range vals {
@@ -323,11 +394,11 @@ func runCase(c Case) lib.Result {
 	}
 	out.Resid = strconv.FormatFloat(rec.ResidualStdDev, 'x', -1, 64)
 	if withProj {
-		res.Term = fmt.Sprintf("KP %s %s %s\n  %s\n  %s\n  %s %s %s %s",
+		term = fmt.Sprintf("KP %s %s %s\n  %s\n  %s\n  %s %s %s %s",
 			boolStr(c.Signed), lib.Z(int64(c.Pre)), dataTerm, hexMatrix(P), hexMatrix(B), boolStr(out.Accepted),
 			strings.Join(sc, " "), hexList(rec.ModelCoefs), hexf(rec.ResidualStdDev))
 	} else {
-		res.Term = fmt.Sprintf("K0 %s %s %s %s", boolStr(c.Signed), lib.Z(int64(c.Pre)), dataTerm, strings.Join(sc, " "))
+		term = fmt.Sprintf("K0 %s %s %s %s", boolStr(c.Signed), lib.Z(int64(c.Pre)), dataTerm, strings.Join(sc, " "))
 	}
 	// tags and the non-triviality rule: mu not an integer and at least one word >= 2^15
 	if c.Signed {
@@ -377,10 +448,7 @@ func runCase(c Case) lib.Result {
 	default:
 		tags["p>5"] = true
 	}
-	res.NonTrivial = big && nonInt && c.Pre >= 3 && n >= c.Pre+1
-	res.Impl = out
-	res.Tags = sortedTags(tags)
-	return res
+	return term, out, big && nonInt && c.Pre >= 3 && n >= c.Pre+1
 }
 
 func sortedTags(m map[string]bool) []string {
@@ -538,27 +606,55 @@ func corpus() []Case {
 		}
 		return d
 	}
+	ramp := func(n, npre, base, slope int) []int {
+		d := make([]int, n)
+		for i := range d {
+			if i < npre {
+				d[i] = base + slope*i
+			} else {
+				d[i] = base + 500 - i
+			}
+		}
+		return d
+	}
+	one := func(s Step) Case { return Case{Steps: []Step{s}} }
+	pw := []int{1, 2, 4, 8, 16, 32, 64, 128}
 	return []Case{
 		// pre-fix defect: mean square comes out negative, pulseRMS = NaN
-		{Pre: 2073, Data: nanWitness, Kind: "corpus-nan-witness"},
+		one(Step{Pre: 2073, Data: nanWitness, Kind: "corpus-nan-witness"}),
 		// the repository's own test vectors (TestAnalyzeData)
-		{Pre: 4, Data: []int{0, 0, 0, 0, 0, 0, 10, 20, 30, 40}, Kind: "corpus"},
-		{Pre: 3, Data: []int{65535, 65535, 65535, 65535}, Kind: "corpus"},
-		{Pre: 3, Data: []int{65535, 65535, 65535, 65535}, Signed: true, Kind: "corpus"},
-		{Pre: 3, Data: []int{32767, 32768, 32767, 32768, 0, 65535}, Signed: true, Kind: "corpus"},
-		{Pre: 3, Data: []int{32767, 32768, 32767, 32768, 0, 65535}, Kind: "corpus"},
-		{Pre: 5, Data: []int{100, 101, 102, 103, 104, 90, 80, 70}, Kind: "corpus"},
-		{Pre: 4, Data: []int{1, 2, 4, 8, 16, 32, 64, 128}, K: 2, MStyle: 1, MSeed: 7, Kind: "corpus"},
-		{Pre: 4, Data: full(12, 65535), K: 1, MStyle: 0, MSeed: 9, Kind: "corpus"},
-		{Pre: 4, Data: []int{1, 2, 4, 8, 16, 32, 64, 128}, K: 2, MStyle: 1, MSeed: 7, Bad: 1, Kind: "corpus"},
-		{Pre: 4, Data: []int{1, 2, 4, 8, 16, 32, 64, 128}, K: 2, MStyle: 1, MSeed: 7, Bad: 2, Kind: "corpus"},
-		{Pre: 4, Data: []int{1, 2, 4, 8, 16, 32, 64, 128}, K: 2, MStyle: 1, MSeed: 7, Bad: 3, Kind: "corpus"},
+		one(Step{Pre: 4, Data: []int{0, 0, 0, 0, 0, 0, 10, 20, 30, 40}, Kind: "corpus"}),
+		{Steps: []Step{
+			{Pre: 3, Data: []int{65535, 65535, 65535, 65535}, Kind: "corpus"},
+			{Pre: 3, Data: []int{65535, 65535, 65535, 65535}, Signed: true, Kind: "corpus"},
+			{Pre: 3, Data: []int{32767, 32768, 32767, 32768, 0, 65535}, Signed: true, Kind: "corpus"},
+			{Pre: 3, Data: []int{32767, 32768, 32767, 32768, 0, 65535}, Kind: "corpus"},
+			{Pre: 5, Data: []int{100, 101, 102, 103, 104, 90, 80, 70}, Kind: "corpus"}}},
+		// one processor: long pre-trigger, then a SHORTER one with a sloping baseline, then long again
+		// (through ConfigurePulseLengths, and without it as for edge-multi short records)
+		{Steps: []Step{
+			{Pre: 12, Data: ramp(32, 12, 100, 10), Kind: "corpus-history", Reconf: true},
+			{Pre: 4, Data: ramp(16, 4, 100, 10), Kind: "corpus-history", Reconf: true},
+			{Pre: 12, Data: ramp(32, 12, 40000, -7), Kind: "corpus-history", Reconf: true}}},
+		{Steps: []Step{
+			{Pre: 20, Data: ramp(40, 20, 1000, 3), Kind: "corpus-history"},
+			{Pre: 5, Data: ramp(40, 5, 1000, 3), Kind: "corpus-history"},
+			{Pre: 3, Data: ramp(9, 3, 65000, -100), Signed: true, Kind: "corpus-history", Batch: 3},
+			{Pre: 30, Data: ramp(40, 30, 0, 9), Kind: "corpus-history"}}},
+		// projectors loaded, replaced, rejected (three incompatible shapes), dropped
+		{Steps: []Step{
+			{Pre: 4, Data: pw, K: 2, MStyle: 1, MSeed: 7, Kind: "corpus"},
+			{Pre: 4, Data: full(12, 65535), K: 1, MStyle: 0, MSeed: 9, Kind: "corpus"},
+			{Pre: 4, Data: pw, K: 2, MStyle: 1, MSeed: 7, Bad: 1, Kind: "corpus"},
+			{Pre: 4, Data: pw, K: 2, MStyle: 1, MSeed: 7, Bad: 2, Kind: "corpus"},
+			{Pre: 4, Data: pw, K: 2, MStyle: 1, MSeed: 7, Bad: 3, Kind: "corpus"},
+			{Pre: 3, Data: pw, Kind: "corpus"}}},
 	}
 }
 
 func gen(seed uint64, tier string) []interface{} {
 	r := lib.NewRng(seed)
-	nScalar, nBig, nProj, nProjBig, nBad := 230, 6, 110, 3, 8
+	nScalar, nBig, nProj, nProjBig, nBad := 260, 6, 110, 3, 9
 	if tier == "thorough" {
 		nScalar, nBig, nProj, nProjBig, nBad = 3000, 60, 1200, 30, 60
 	}
@@ -572,11 +668,13 @@ func gen(seed uint64, tier string) []interface{} {
 	for _, c := range corpus() {
 		add(c)
 	}
+	var steps []Step
 	for i := 0; i < nScalar+nBig; i++ {
 		q := r.Fork()
 		n, p := genSizes(q, i >= nScalar)
 		kind := kinds[i%len(kinds)]
-		add(Case{Signed: q.Bool(), Pre: p, Data: genRecord(q, kind, n, p), Kind: kind, Batch: q.Pick([]int{0, 0, 1, 2, 3})})
+		steps = append(steps, Step{Signed: q.Bool(), Pre: p, Data: genRecord(q, kind, n, p), Kind: kind,
+			Batch: q.Pick([]int{0, 0, 1, 2, 3}), Reconf: q.Chance(1, 3)})
 	}
 	for i := 0; i < nProj+nProjBig+nBad; i++ {
 		q := r.Fork()
@@ -591,12 +689,25 @@ func gen(seed uint64, tier string) []interface{} {
 			k = q.Pick([]int{1, 1, 2, 2, 3, 4, 5, 6, 7, 8})
 		}
 		kind := kinds[(i*7+3)%len(kinds)]
-		c := Case{Signed: q.Bool(), Pre: p, Data: genRecord(q, kind, n, p), Kind: kind,
-			K: k, MStyle: i % 4, MSeed: q.U64(), Batch: q.Pick([]int{0, 0, 1, 2, 3})}
+		c := Step{Signed: q.Bool(), Pre: p, Data: genRecord(q, kind, n, p), Kind: kind,
+			K: k, MStyle: i % 4, MSeed: q.U64(), Batch: q.Pick([]int{0, 0, 1, 2, 3}), Reconf: q.Chance(1, 3)}
 		if i >= nProj+nProjBig {
 			c.Bad = 1 + i%3
 		}
-		add(c)
+		steps = append(steps, c)
+	}
+	// shuffle (Fisher-Yates on the one PRNG), then cut into histories of 1..6 steps on one processor each
+	for i := len(steps) - 1; i > 0; i-- {
+		j := r.Intn(i + 1)
+		steps[i], steps[j] = steps[j], steps[i]
+	}
+	for i := 0; i < len(steps); {
+		k := r.Pick([]int{1, 2, 3, 3, 4, 5, 6})
+		if i+k > len(steps) {
+			k = len(steps) - i
+		}
+		add(Case{Steps: steps[i : i+k]})
+		i += k
 	}
 	return out
 }
@@ -612,8 +723,8 @@ func main() {
 			return runCase(c), nil
 		},
 		Header:   "From Coq Require Import Floats.\nFrom Dastard Require Import Common.ZX Common.CaseLib C13.Model C13.ModelFloat C13.Spec C13.Run.",
-		Verdict:  "verdict",
-		PerShard: 40,
+		Verdict:  "verdict_hist",
+		PerShard: 14,
 	}
 	h.Main()
 }
